@@ -228,6 +228,21 @@ def try_auto(ctx, site):
             ix = F.sym_operand(call_args[1])
             ity = b.locals[call_args[1][1][0]] if call_args[1][0] in ('cp', 'mv') and not call_args[1][1][1] else (call_args[1][2] if call_args[1][0] == 'k' else '')
             ln = ('len', base)
+            func = site.term[1]
+            is_str = func[0] == 'fn' and (func[2].startswith('<str as ') or func[2].startswith('<std::string::String as ') or 'str::traits' in func[1])
+            if is_str and ix[0] == 'agg':
+                # a str range also panics when a bound is not on a character boundary: only 0, len and bounds tested with
+                # is_char_boundary are accepted
+                def boundary_ok(x):
+                    if F.const_int(x) == 0 or x == ln:
+                        return True
+                    for lit, e in lits:
+                        if lit[0] == 'truth' and lit[2] is True and lit[1][0] == 'call' and lit[1][1].endswith('is_char_boundary') and len(lit[1][2]) == 2 and lit[1][2][1] == x:
+                            return True
+                    return False
+                bad = [x for x in ix[4] if not boundary_ok(x)]
+                if bad:
+                    return False, 'need %s on a char boundary of %s (str slicing)' % (', '.join(fmt_sym(b, x) for x in bad), fmt_sym(b, base))
             if ity == 'usize':
                 h = F.cmp_holds(lits, 'lt', ix, ln)
                 if h:
